@@ -19,7 +19,7 @@ func init() {
 			"(3) observer callbacks return nothing, so a replica cannot fail a write; " +
 			"(4) dead sessions are dropped: the heartbeat's timeout arm and a failed send mark the session disconnected, every marked session reaches unregisterReplicaSession, GetReplicaInfo filters on Connected, session ids are unique per stream (not derived from the request), and no blocking send runs under a session lock inside the heartbeat's sequential loop.",
 		NotDecided: "latencies, time bounds, 'eventually', TCP-level stalls (need a fault-injecting transport).",
-		Rules:      []func(*Ctx, *Reporter){ruleNoBlockingUnderWAL, ruleWritePathLockCycles, ruleObserversReturnNothing, ruleDeadSessions},
+		Rules:      []func(*Ctx, *Reporter){ruleNoBlockingUnderWAL, ruleWritePathLockCycles, ruleObserversReturnNothing, ruleDeadSessions, ruleReplNoReentrancy, ruleKeepalivePings},
 	})
 }
 
